@@ -411,6 +411,9 @@ impl hyperdriver::server::conn::Accept for SimAcceptor {
 pub struct SimExecutor {
     pub spawned: Arc<Mutex<u64>>,
     pub finished: Arc<Mutex<u64>>,
+    /// a busy executor: a task handed to it is first polled this many virtual milliseconds later
+    /// (whatever happens in between - the shutdown signal, say - finds a task that has never run)
+    pub start_delay_ms: u64,
 }
 
 impl<F> hyper::rt::Executor<F> for SimExecutor
@@ -421,7 +424,11 @@ where
     fn execute(&self, fut: F) {
         *self.spawned.lock() += 1;
         let fin = self.finished.clone();
+        let delay = self.start_delay_ms;
         tokio::spawn(async move {
+            if delay > 0 {
+                tokio::time::sleep(Duration::from_millis(delay)).await;
+            }
             crate::net::SpinGuard::new(fut).await;
             *fin.lock() += 1;
         });
